@@ -117,9 +117,25 @@ fn guarded_case(p: &PropDef, gen: &str, index: u64, seed: u64, tier: Tier, rep: 
     panics::clear();
     vcheck::sim::spin_reset();
     let _ = vcheck::sim::spin_take();
+    let _ = vcheck::sim::sched::take_case_stats();
     let r = std::panic::catch_unwind(std::panic::AssertUnwindSafe(|| {
         (p.run_case)(gen, index, seed, tier, rep);
     }));
+    let stats = vcheck::sim::sched::take_case_stats();
+    if stats.max_steps > 0 {
+        rep.max("max:scheduler_steps_of_one_run", stats.max_steps);
+    }
+    if let Some((cap, pending)) = stats.cap_hit {
+        // Bounded progress (DESIGN.md 2.3): the caps are orders of magnitude above what any run on
+        // a tree where the property holds needs (see max:scheduler_steps_of_one_run in the
+        // evidence) and steps are logical, not wall-clock: a run that is still busy after that
+        // many steps is a livelock (e.g. a write that never completes), not a slow machine.
+        rep.violation(
+            format!("{}/no-quiescence-within-step-cap", p.id),
+            format!("a run was still making steps after {} scheduler steps; tasks not finished: {:?}", cap, pending.iter().take(6).collect::<Vec<_>>()),
+            json!({"step_cap": cap, "pending_tasks": pending}),
+        );
+    }
     if let Some(d) = vcheck::sim::spin_take() {
         // h3 busy-looped inside one poll: the call under test can never complete (the simulated
         // transport broke the loop with a panic after SPIN_LIMIT calls)
@@ -182,7 +198,7 @@ fn cmd_run(args: &[String]) -> i32 {
         .unwrap_or(1e9);
     let only = arg_val(args, "--only");
     let evidence_path = arg_val(args, "--evidence");
-    let known = KnownFindings::load(arg_val(args, "--known").as_deref());
+    let known = Arc::new(KnownFindings::load(arg_val(args, "--known").as_deref()));
     let replay_dir = arg_val(args, "--replay-dir");
     let verbose = args.iter().any(|a| a == "--verbose");
 
@@ -232,6 +248,9 @@ fn cmd_run(args: &[String]) -> i32 {
     let done_counts: Arc<Vec<AtomicU64>> =
         Arc::new(gens.iter().map(|_| AtomicU64::new(0)).collect());
     let timed_out = Arc::new(AtomicBool::new(false));
+    let nviol = Arc::new(AtomicU64::new(0));
+    let stopped_early = Arc::new(AtomicBool::new(false));
+    let first_viol_ms = Arc::new(AtomicU64::new(0));
     let gens = Arc::new(gens);
     let mut handles = Vec::new();
     for _ in 0..threads.max(1) {
@@ -240,6 +259,10 @@ fn cmd_run(args: &[String]) -> i32 {
         let gens = gens.clone();
         let done_counts = done_counts.clone();
         let timed_out = timed_out.clone();
+        let nviol = nviol.clone();
+        let stopped_early = stopped_early.clone();
+        let first_viol_ms = first_viol_ms.clone();
+        let known = known.clone();
         let pid = p.id;
         handles.push(
             std::thread::Builder::new()
@@ -259,8 +282,28 @@ fn cmd_run(args: &[String]) -> i32 {
                         let g = &gens[gi];
                         for index in lo..hi {
                             let cs = util::case_seed(seed, g.name, index);
+                            let before = rep.violations.len();
                             guarded_case(&p, g.name, index, cs, tier, &mut rep);
                             done_counts[gi].fetch_add(1, Ordering::Relaxed);
+                            if rep.violations.len() > before {
+                                // listed known findings do not count: they are expected on this tree
+                                let fresh = rep.violations[before..].iter().filter(|v| known.lookup(pid, &v.sig).is_none()).count();
+                                if fresh > 0 {
+                                    nviol.fetch_add(fresh as u64, Ordering::Relaxed);
+                                    let _ = first_viol_ms.compare_exchange(0, t0.elapsed().as_millis().max(1) as u64, Ordering::Relaxed, Ordering::Relaxed);
+                                }
+                            }
+                            // a tree that violates the property often does so in most cases, and each
+                            // failing case can be slow (livelocks run to their step cap): stop after
+                            // 200 reports, or 20 s after the first one
+                            let first = first_viol_ms.load(Ordering::Relaxed);
+                            if nviol.load(Ordering::Relaxed) >= 200 || (first != 0 && t0.elapsed().as_millis() as u64 > first + 20_000) {
+                                stopped_early.store(true, Ordering::Relaxed);
+                                break;
+                            }
+                        }
+                        if stopped_early.load(Ordering::Relaxed) {
+                            break;
                         }
                     }
                     rep
@@ -281,6 +324,9 @@ fn cmd_run(args: &[String]) -> i32 {
         if g.exhaustive && done == g.count {
             rep.exhaustive.insert(g.name.to_string());
         }
+    }
+    if stopped_early.load(Ordering::Relaxed) {
+        rep.notes.push("stopped early: 200 violation reports, or 20 s after the first one".to_string());
     }
     if timed_out.load(Ordering::Relaxed) {
         rep.notes
